@@ -52,6 +52,10 @@ TARGETS = [
     dict(name="key_check_public_key", file="src/key.rs", fn="check_public_key", kind="function", ret="unit + pk_error"),
     dict(name="normalized_string_new", file="src/normalized_string.rs", fn="inner", kind="function", ret="nstr_view + ns_error",
          consts={"MAXIMUM_STRING_LENGTH_IN_BYTES": ("max_string_length", "u8")}),
+    dict(name="normalized_string_from_str", file="src/normalized_string.rs", fn="from_str", kind="function", ret="nstr_view + ns_error", opt_calls={"Self::new": ("tr_normalized_string_new", "res")}),
+    dict(name="normalized_string_from_string", file="src/normalized_string.rs", fn="from_string", kind="function", ret="nstr_view + ns_error", opt_calls={"Self::new": ("tr_normalized_string_new", "res")}),
+    dict(name="normalized_string_try_from_str", file="src/normalized_string.rs", fn="try_from", nth=0, kind="function", ret="nstr_view + ns_error", opt_calls={"Self::new": ("tr_normalized_string_new", "res")}),
+    dict(name="normalized_string_try_from_string", file="src/normalized_string.rs", fn="try_from", nth=1, kind="function", ret="nstr_view + ns_error", opt_calls={"Self::new": ("tr_normalized_string_new", "res")}),
     dict(name="pin_remap_pin_grid", file="src/pin.rs", fn="remap_pin_grid", kind="function", ret=("arr", "u8"),
          consts={"MAX_PIN_LENGTH": ("max_pin_length", "u8")}),
     dict(name="pin_to_bytes", file="src/pin.rs", fn="pin_to_bytes", kind="function", ret=("arr", "u8"),
@@ -97,13 +101,15 @@ def tuple_of(names):
 def tuple_type(n, elem="N"):
     return elem if n == 1 else "(" + " * ".join([elem] * n) + ")"
 
-def free_fn(src, name):
-    """the free function `name` (not a method: first parameter is not self)"""
-    k = 0
+def free_fn(src, name, nth=0):
+    """the nth function `name` whose first parameter is not self"""
+    k, seen = 0, 0
     while True:
         sig, ret, body = find_fn(src, name, k)
         ps = split_params(sig)
-        if not ps or ps[0][0] != "self": return ps, ret, body
+        if not ps or ps[0][0] != "self":
+            if seen == nth: return ps, ret, body
+            seen += 1
         k += 1
 
 def slice_loop(t, src):
@@ -213,7 +219,7 @@ def formula(t, src):
 
 def function(t, src):
     """free function: parameters by value or &mut array; result = (mutable array params.., tail value)"""
-    ps, ret, body = free_fn(src, t["fn"])
+    ps, ret, body = free_fn(src, t["fn"], t.get("nth", 0))
     env, names, muts = {}, [], []
     for name, ty in ps:
         pt, mut = param_type(ty)
@@ -221,7 +227,7 @@ def function(t, src):
         if mut and isinstance(pt, tuple): muts.append(name)
     consts = dict(CONSTS); consts.update(t.get("consts", {}))
     g = Gen(env, consts)
-    g.enums = dict(ENUMS); g.ctor_calls = dict(CTORS); g.structs = dict(STRUCTS_FN)
+    g.enums = dict(ENUMS); g.ctor_calls = dict(CTORS); g.structs = dict(STRUCTS_FN); g.opt_calls = dict(t.get("opt_calls", {}))
     blk = Parser(tokenize(body)).block()
     g.usize_vars = usize_variables(blk)
     def final(tail):
